@@ -45,7 +45,39 @@ impl StatisticCollector for Counting {
     }
 }
 
+/// a source that hands out the bytes in fragments of varying size (so that messages straddle the
+/// refills of the reader's buffer); which sizes is a function of the bytes alone
+struct Fragments<'a> {
+    data: &'a [u8],
+    pos: usize,
+    step: usize,
+}
+
+impl<'a> std::io::Read for Fragments<'a> {
+    fn read(&mut self, buf: &mut [u8]) -> std::io::Result<usize> {
+        const SIZES: [usize; 9] = [7, 1, 64, 3, 1000, 13, 2, 29, 5];
+        let want = SIZES[self.step % SIZES.len()];
+        self.step += 1;
+        let n = want.min(buf.len()).min(self.data.len() - self.pos);
+        buf[..n].copy_from_slice(&self.data[self.pos..self.pos + n]);
+        self.pos += n;
+        Ok(n)
+    }
+}
+
 fn collect(w: bool, bytes: &[u8]) -> Option<(StatisticInfo, usize)> {
+    // every other stream is read through a fragmenting source
+    if bytes.len() % 2 == 1 {
+        let mut reader = DltMessageReader::new(Fragments { data: bytes, pos: 0, step: bytes.len() }, w);
+        let mut c = Counting {
+            inner: StatisticInfoCollector::default(),
+            calls: 0,
+        };
+        return match collect_statistics(&mut reader, &mut c) {
+            Ok(()) => Some((c.inner.collect(), c.calls)),
+            Err(_) => None,
+        };
+    }
     let mut reader = DltMessageReader::new(bytes, w);
     let mut c = Counting {
         inner: StatisticInfoCollector::default(),
